@@ -434,7 +434,11 @@ static void ref_check(size_t len, carquet_compression_t codec) {
                     const ref_statistics* st = &ph.data.statistics;
                     int nulls = 0; for (int i = 0; i < pn; i++) nulls += !C[c].def[prow + i];
                     if (st->present & REF_BIT(REF_ST_NULL_COUNT)) SYMX_ASSERT(st->null_count == nulls, "page statistics: null_count is the number of nulls of the page");
-                    if (CT[c] >= 1 && CT[c] <= 4) {
+                    /* min/max of FLOAT/DOUBLE columns are checked on CONCRETE content only (special values: NaN, -0.0, infinities,
+                       denormals): the engine's solver is created for QF_ABV, which leaves floating-point comparisons of SYMBOLIC
+                       values uninterpreted, so a bound check on symbolic floats would compare against orderings the real code
+                       never produces (such counterexamples do not reproduce natively) */
+                    if (CT[c] >= 1 && CT[c] <= 4 && !(CT[c] >= 3 && (CSYM[c] & 2))) {
                         int dd = pq_present(&S, &C[c], c, 0, prow), kk = 0;
                         for (int i = 0; i < pn; i++) {
                             if (!C[c].def[prow + i]) continue;
